@@ -491,6 +491,9 @@ pub fn corner_files() -> Vec<(Cfg, Vec<Entry>)> {
     v.push((c(0, 1024, 8, 0), (0..60u64).map(|i| ((i as u32 * 2).to_be_bytes().to_vec(), (i * 1000).to_be_bytes().to_vec())).collect()));
     v.push((c(5, 1024, 8, 0), vec![(vec![9u8; 3000], 0u64.to_be_bytes().to_vec())]));
     v.push((c(0, 1024, 1, 2), (0..40u64).map(|i| (long_key(i as u32 + 1), (i * 1256).to_be_bytes().to_vec())).collect()));
+    // a small tree with two blocks on index level 2 (12 entries, two per data block): model-checked
+    // in the quick tier
+    v.push((c(0, 1024, 1, 2), longs(12, 400)));
     v
 }
 
